@@ -411,6 +411,13 @@ def run(ctx):
         raise tlc.TLCError("model self-test: the pre-fix implementation layer (round to nearest frame, KeyError in the "
                            f"mismatch message) is not rejected by the property layer: {ro.invariant_violated}")
     ctx.cov["model_selftest_orig_variant_rejected"] = ro.invariant_violated
+    # 1b. the same arithmetic for unbounded frame sizes / lengths / announced counts, discharged symbolically (Apalache)
+    from vkit import apalache
+    if not apalache.check("apalache/ReaderOpenInd.tla", "Init", "Theorem", 0):
+        raise tlc.TLCError("spec/apalache/ReaderOpenInd.tla: the unbounded form of ByteFormsAgree / Exposed / OpenSucceeds does not hold")
+    ctx.cov["unbounded_theorem"] = {"tool": "apalache-mc 0.58", "statement": "for all f >= 2, q >= 1, 0 <= r < f, m >= 0: byte and frame "
+                                    "forms of the size test agree, n frames fit iff n <= q, the repaired open() exposes q frames and "
+                                    "does not raise (offline and online reader)"}
     # 2 + 3. real executions
     scs = scs_cex + scenarios(ctx, exported)
     rng = np.random.default_rng(ctx.seed)
